@@ -2,6 +2,7 @@
 #include <osmium/io/compression.hpp>
 #include <osmium/io/file.hpp>
 #include <osmium/io/o5m_input.hpp>
+#include <osmium/io/opl_input.hpp>
 #include <osmium/io/pbf_input.hpp>
 #include <osmium/io/pbf_output.hpp>
 #include <osmium/io/writer.hpp>
@@ -63,11 +64,27 @@ static int pbf_family() {
     return 0;
 }
 
+// OPL text delivered in pieces: lines that span one, two and three or more pieces, CR/LF split across pieces, no trailing newline
+static int opl_family() {
+    g_format = "opl.gz";
+    std::string st = "n1 v1 dV c1 t2020-01-01T00:00:00Z i1 uu T x1 y2\nn2 v1 dV c1 t i1 uu Tk=v x3 y4\r\nw10 v1 dV c1 t i1 uu T Nn1,n2,n3,n4,n5,n6,n7,n8,n9,n10,n11,n12\n\nn3 v1 dV c1 t i1 uu T x5 y6";
+    const std::string ref = run(st, {});
+    if (ref.find("ERROR") != std::string::npos) { std::printf("valid OPL text delivered in one piece is rejected: %s\nARGV: opl\n", ref.c_str()); g_format = "o5m.gz"; return 1; }
+    std::vector<size_t> all; for (size_t c = 1; c < st.size(); ++c) all.push_back(c);
+    int rc = 0;
+    if (run(st, all) != ref) { std::printf("OPL text delivered one byte at a time gives a different result:\n  %s\n  one piece: %s\nARGV: opl\n", run(st, all).c_str(), ref.c_str()); rc = 1; }
+    for (size_t a = 1; a < st.size() && !rc; ++a) { if (run(st, {a}) != ref) { std::printf("OPL text cut at offset %zu gives a different result\nARGV: opl\n", a); rc = 1; }
+        for (size_t b = a + 1; b < st.size() && !rc; b += 3) if (run(st, {a, b}) != ref) { std::printf("OPL text cut at offsets %zu and %zu gives a different result:\n  %s\n  one piece: %s\nARGV: opl\n", a, b, run(st, {a, b}).c_str(), ref.c_str()); rc = 1; } }
+    g_format = "o5m.gz";
+    return rc;
+}
+
 int main(int, char**) {
     osmium::io::CompressionFactory::instance().register_compression(osmium::io::file_compression::gzip,
         [](int, osmium::io::fsync) -> osmium::io::Compressor* { return nullptr; }, [](int) -> osmium::io::Decompressor* { return nullptr; },
         [](const char* b, size_t n) -> osmium::io::Decompressor* { return new ChunkDecompressor(b, n); });
     { const int rc = pbf_family(); if (rc) return rc; }
+    { const int rc = opl_family(); if (rc) return rc; }
     std::vector<std::string> streams;
     { std::string s = header(); dataset(s, 0x10, node(1, 10, 20)); streams.push_back(s); streams.push_back(s + char(0xfe)); }                               // tiny file: one node with a 7-byte body
     { std::string s = header(); dataset(s, 0x10, node(1, 10000000, 20000000, "highway", "bus_stop")); dataset(s, 0x10, node(1, 5, -3)); s += char(0xfe); streams.push_back(s); }
